@@ -456,7 +456,8 @@ def helix_obj(*args, **kwargs) -> HelixObject:
 
     dist = (position - pivot).to_2D()
     dr = dist.rho
-    if not np.isclose(dist.phi % (2 * np.pi), phi0):
+    # compare the two directions on the circle (just below 2*pi and just above 0 are the same direction)
+    if not np.isclose((dist.phi - phi0 + np.pi) % (2 * np.pi), np.pi):
         dr *= -1
 
     dz = position.z - pivot.z
@@ -932,7 +933,8 @@ def _fix_dr_sign(dr: FloatLike, phi0: FloatLike, dist_phi: FloatLike) -> FloatLi
     Returns:
         float: The corrected radial distance.
     """
-    if not np.isclose(dist_phi % (2 * np.pi), phi0):
+    # compare the two directions on the circle (just below 2*pi and just above 0 are the same direction)
+    if not np.isclose((dist_phi - phi0 + np.pi) % (2 * np.pi), np.pi):
         return -dr
     return dr
 
